@@ -7,7 +7,7 @@ the ranking's elements and within the rows of the matrix (established by Dataset
 `get_positions` is the same statement over `ranking.positions.items()` (the dict element -> 1-based rank that
 Ranking.__init__ builds, proved there): cell (id(e), index of the ranking) receives position - 1.
 """
-from pyvc.types import Int, Obj, Arr, SetList, IntDict
+from pyvc.types import Int, Obj, Arr, SetList, IntDict, Bool, List
 
 F = "corankco/dataset.py::Dataset."
 
@@ -58,6 +58,7 @@ def register(reg):
         notes="Dataset.get_bucket_ids, one ranking (fragment: body of the loop over the rankings)",
     )
     register_positions(reg)
+    register_flags(reg)
 
 
 def register_positions(reg):
@@ -90,4 +91,89 @@ def register_positions(reg):
             }),
         },
         notes="Dataset.get_positions, one ranking (fragment: body of the loop over the rankings)",
+    )
+
+
+def register_flags(reg):
+    """Dataset._analyse_rankings, the two flags and the id maps (property C16: the views of a Dataset agree with its
+    rankings).  Fragment 1: one iteration of the loop over the (normalised) rankings — every element of the ranking is
+    counted once more, nothing else is, and `without_ties` survives exactly when no bucket of the ranking holds two
+    elements.  Fragment 2: the loop over the counted elements — every counted element receives an id, the two maps are
+    inverse of each other on them, and `complete` survives exactly when every element was counted once per ranking."""
+    N = "nb_occur_elements_in_rankings"
+    IN = "exists(lambda j: ranking[j][%s], 0, %s)"
+
+    def counted(upto, extra=""):
+        return ("forall(lambda e: implies(%s%s, has(%s, e) and %s[e] == ite(has(old(%s), e), old(%s)[e], 0) + 1))"
+                % (IN % ("e", upto), extra, N, N, N, N))
+
+    def untouched(upto, extra=""):
+        return ("forall(lambda e: implies(not %s%s, has(%s, e) == has(old(%s), e) and "
+                "implies(has(old(%s), e), %s[e] == old(%s)[e])))" % (IN % ("e", upto), extra, N, N, N, N, N))
+
+    def ties(upto):
+        return ("without_ties == (old(without_ties) and forall(lambda j: card(ranking[j]) <= 1, 0, %s))" % upto)
+
+    reg.contract(
+        F + "_analyse_rankings#count", props=["C16"],
+        fragment={"body_of_loop": 6},
+        params={"self": Obj, "ranking": SetList(), N: IntDict(Int), "without_ties": Bool},
+        requires={
+            "disjoint": "forall(lambda j1, j2, e: implies(0 <= j1 and j1 < j2 and j2 < len(ranking), "
+                        "not (ranking[j1][e] and ranking[j2][e])))",
+        },
+        modifies=[N],
+        ensures={"counted": counted("len(ranking)"), "untouched": untouched("len(ranking)"),
+                 "without_ties": ties("len(ranking)")},
+        loops={
+            7: dict(inv={"counted": counted("idx_bucket"), "untouched": untouched("idx_bucket"),
+                         "without_ties": ties("idx_bucket")}),
+            8: dict(inv={
+                "earlier": counted("idx_bucket"),
+                "current": "forall(lambda e: implies(seen_element[e], has(%s, e) and "
+                           "%s[e] == ite(has(old(%s), e), old(%s)[e], 0) + 1))" % (N, N, N, N),
+                "untouched": untouched("idx_bucket", " and not seen_element[e]"),
+            }),
+        },
+        notes="occurrence counts and the no-tie flag for one ranking (fragment: body of the loop over the rankings)",
+    )
+
+    E2I, I2E = "self._mapping_element_id", "self._mapping_id_element"
+
+    def ids(dom):
+        return ("forall(lambda e: implies(%s, has(%s, e) and 0 <= %s[e] and %s[e] < id_element and "
+                "has(%s, %s[e]) and %s[%s[e]] == e))" % (dom, E2I, E2I, E2I, I2E, E2I, I2E, E2I))
+
+    def only(dom):
+        return ("forall(lambda e: implies(has(%s, e), %s))" % (E2I, dom))
+
+    def inverse(dom):
+        return ("forall(lambda i: iff(has(%s, i), 0 <= i and i < id_element) and implies(has(%s, i), %s and "
+                "%s[%s[i]] == i))" % (I2E, I2E, dom.replace("(e)", "(%s[i])" % I2E).replace(", e)", ", %s[i])" % I2E)
+                                      .replace("[e]", "[%s[i]]" % I2E), E2I, I2E))
+
+    def compl(dom):
+        return ("complete == forall(lambda e: implies(%s, %s[e] == len(rankings_final)))" % (dom, N))
+
+    reg.contract(
+        F + "_analyse_rankings#ids", props=["C16"],
+        fragment={"loop": 2},
+        params={"self": Obj, N: IntDict(Int), "rankings_final": List(Int), "id_element": Int, "complete": Bool},
+        fields={E2I: IntDict(Int), I2E: IntDict(Int)},
+        requires={
+            # the state the statements in front of the loop establish
+            "fresh_maps": "forall(lambda e: not has(%s, e) and not has(%s, e))" % (E2I, I2E),
+            "start": "id_element == 0 and complete",
+        },
+        ensures={
+            # every counted element has an id, the ids are 0 .. id_element - 1, the two maps are inverse of each other
+            "ids": ids("has(%s, e)" % N), "only": only("has(%s, e)" % N), "inverse": inverse("has(%s, e)" % N),
+            # complete exactly when every element was counted once per ranking
+            "complete": compl("has(%s, e)" % N),
+        },
+        loops={
+            9: dict(inv={"ids": ids("seen_key[e]"), "only": only("seen_key[e]"), "inverse": inverse("seen_key[e]"),
+                         "complete": compl("seen_key[e]"), "nonneg": "0 <= id_element"}),
+        },
+        notes="element <-> id maps and the completeness flag (fragment: the loop over the counted elements)",
     )
